@@ -276,8 +276,19 @@ class FluidPropertyInterExtra(FluidProperty):
                     t_upper_k, t_lower_k)
 
         """
-        mean = (self.prop_getter(upper_limit_arg) + self.prop_getter(upper_limit_arg)) / 2
-        return mean * (upper_limit_arg-lower_limit_arg)
+        return self._antiderivative(upper_limit_arg) - self._antiderivative(lower_limit_arg)
+
+    def _antiderivative(self, arg):
+        # exact antiderivative of the piecewise linear property (zero at the first tabulated point)
+        self.prop_getter(arg)  # raises for arguments outside the table if extrapolation is not allowed
+        x = np.asarray(self.prop_getter.x, dtype=float)
+        y = np.asarray(self.prop_getter.y, dtype=float)
+        arg = arg.values if isinstance(arg, pd.Series) else np.asarray(arg, dtype=float)
+        knots = np.concatenate([[0.], np.cumsum((y[1:] + y[:-1]) / 2 * np.diff(x))])
+        seg = np.clip(np.searchsorted(x, arg, side="right") - 1, 0, len(x) - 2)
+        dx = arg - x[seg]
+        slope = (y[seg + 1] - y[seg]) / (x[seg + 1] - x[seg])
+        return knots[seg] + y[seg] * dx + slope * dx ** 2 / 2
 
     @classmethod
     def from_path(cls, path, method="interpolate_extrapolate"):
